@@ -86,6 +86,14 @@ package entrypoint
 //@   ensures[C11] ackSuccess(ack) && forOrb(packet) ==> bal(xferLedger(packet, theOp().Payload), dustAddr(), pktDenom(packet)) >= bal(old(bank), dustAddr(), pktDenom(packet)) + bal(old(bank), core.ModuleAddress, pktDenom(packet))
 //@   ensures[C11] ackSuccess(ack) && forOrb(packet) ==> forall d string :: d != pktDenom(packet) ==> bal(xferLedger(packet, theOp().Payload), core.ModuleAddress, d) == bal(old(bank), core.ModuleAddress, d)
 //
+//   C16: the coin the orbiter processes is the coin ICS-20 credits: a successful orbiter transfer carried
+//   a denomination prefixed by this packet's own source port and channel (a returning token, which ICS-20
+//   unescrows), the remainder is a native denomination, and that remainder with the packet's amount is
+//   the incoming coin of the transfer attributes.
+//@   ensures[C16] ackSuccess(ack) && forOrb(packet) ==> prefixof(denomPrefix(packet.SourcePort, packet.SourceChannel), pktData(packet).Denom) && tracePath(pktDenom(packet)) == ""
+//@   ensures[C16] ackSuccess(ack) && forOrb(packet) ==> theOp() != nil && theOp().TransferAttributes != nil && theOp().TransferAttributes.sourceCoin.Denom == pktDenom(packet) &&
+//@                  val(theOp().TransferAttributes.sourceCoin.Amount) == pktAmount(packet)
+//
 //   C14: the receive path returns an acknowledgement for every input (the safety obligations - nil
 //   dereference, bounds, conversions, type assertions, explicit panics, panicking library calls - are
 //   generated for every instruction executed below this function); a malformed payload addressed to
